@@ -96,7 +96,9 @@ def consistency_free():
     def f(q_, qd_):
       g = lambda dt: integrator._integrate_q_free(sys.replace(opt=sys.opt.replace(timestep=dt)), q_, qd_)
       return jax.jvp(g, (jp.zeros(()),), (jp.ones(()),))
-    val, tan = sym_call(Interp(A), f, Sym(q), Sym(qd))
+    # safe_norm (of the angular velocity; independent of dt) is used through its verified contract (C09/safe_norm/contract_*): the first-order term does not depend on its value
+    from verif.contracts import cuts
+    val, tan = sym_call(Interp(A, cuts={'brax.math:safe_norm': cuts.safe_norm_smt}), f, Sym(q), Sym(qd))
     w = [qd[3 + i] for i in range(3)]
     # (1/2) rot (x) (0, w): the 1e-8 guard cancels to first order (axis * angle = w dt exactly)
     r = [q[3 + i] for i in range(4)]
@@ -109,7 +111,7 @@ def consistency_free():
     return pre, goal
   return smt_custom('C12/integrator._integrate_q_free/consistent', 'brax.generalized.integrator:_integrate_q_free (jax.jvp in dt at 0)',
                     "unit rot: at dt = 0 the map is the identity, d pos'/d dt = v and d rot'/d dt = (1/2) rot (x) (0, w) -- exact quaternion kinematics (the 1e-8 guard cancels to first order)",
-                    body, timeout=200, budget=500)
+                    body, timeout=200, budget=500, cut_targets=('brax.math:safe_norm',))
 
 
 def undamped_explicit():
